@@ -1,0 +1,28 @@
+// Copyright (c) Microsoft Corporation
+// SPDX-License-Identifier: MIT
+
+//! Verification-only scheduling points (compiled only with `--cfg azure_guestproxyagent_verif`).
+//! A harness installs a hook; `point(label)` awaits it. Without a hook it returns at once.
+
+use std::future::Future;
+use std::pin::Pin;
+use std::sync::{Arc, Mutex};
+
+pub type Hook = Arc<dyn Fn(&'static str) -> Pin<Box<dyn Future<Output = ()> + Send>> + Send + Sync>;
+
+static HOOK: Mutex<Option<Hook>> = Mutex::new(None);
+
+pub fn install(hook: Hook) {
+    *HOOK.lock().unwrap_or_else(|e| e.into_inner()) = Some(hook);
+}
+
+pub fn clear() {
+    *HOOK.lock().unwrap_or_else(|e| e.into_inner()) = None;
+}
+
+pub async fn point(label: &'static str) {
+    let hook = HOOK.lock().unwrap_or_else(|e| e.into_inner()).clone();
+    if let Some(hook) = hook {
+        hook(label).await;
+    }
+}
